@@ -154,7 +154,7 @@ def parse_assumptions(src, out):
                 blocks.append(cur)
             cur = []
         elif cur is not None:
-            m = re.match(r"^([A-Za-z_][\w'.]*)\s*:", line)
+            m = re.match(r"^([A-Za-z_][\w'.]*)\s*(?::|$)", line)
             if m:
                 cur.append(m.group(1))
             elif line and not line[0].isspace():
